@@ -13,6 +13,6 @@ Agrees(r) ==
   /\ ~r.panic
   /\ r.whole = Glob(r.p, r.t)
   /\ OkWord(WordVerdict(r.p, r.t), r.word)
-  /\ (r.hasdn => OkWord(WordVerdict(r.p, r.t), r.dn))
+  /\ (r.hasdn => OkWord(DisplayNameVerdict(r.p, r.t), r.dn))
 Check == Agrees(Rec[i]) \/ PrintT(<<"MISMATCH", i>>)
 =============================================================================
